@@ -16,7 +16,7 @@ import (
 // DADouble is a coreda.DA with explicit heights, many blobs per height, a current height,
 // a scripted outcome per Submit call and scripted fetch outcomes per height.
 //
-// Submit outcomes: ok | prefix:<k> | timeout | mempool | toobig | err | acklost | cancel
+// Submit outcomes: ok | prefix:<k> | timeout | mempool | toobig | seqnum | deadline | err | acklost | cancel
 // Fetch outcomes (per GetIDs call on a height, consumed in order, then the natural answer):
 //
 //	notfound | future | errlist | deadline | canceled | errchunk:<i>[:notfound|future|deadline] | ok
@@ -50,6 +50,9 @@ type DADouble struct {
 	Submits int
 	// LastOffered is the number of blobs of the most recent Submit call.
 	LastOffered int
+	// ErrWrap is how a scripted failure of the DA interface's error values is dressed: "" (the bare value),
+	// "front" (context in front of it), "back" (detail behind it), "both".
+	ErrWrap string
 }
 
 type daBlob struct {
@@ -172,8 +175,22 @@ func (d *DADouble) SubmitWithOptions(ctx context.Context, blobs []coreda.Blob, g
 		err = coreda.ErrBlobSizeOverLimit
 	case out == "cancel":
 		err = context.Canceled
+	case out == "seqnum":
+		err = coreda.ErrTxIncorrectAccountSequence
+	case out == "deadline":
+		err = coreda.ErrContextDeadline
 	default:
 		err = errors.New("dadouble: scripted generic failure")
+	}
+	if err != nil && out != "acklost" && !strings.HasPrefix(out, "acklost:") {
+		switch d.ErrWrap {
+		case "front":
+			err = fmt.Errorf("dadouble: submitting %d blobs: %w", len(blobs), err)
+		case "back":
+			err = fmt.Errorf("%w: tx 5F2A09 (%d blobs)", err, len(blobs))
+		case "both":
+			err = fmt.Errorf("rpc error: %w: code 19", err)
+		}
 	}
 	var ids []coreda.ID
 	height := uint64(0)
